@@ -296,7 +296,23 @@ type env struct {
 	hosts []*gocql.HostInfo
 	idx   map[*gocql.HostInfo]int
 	c     *seqCounters
+	// finding keys of the overlapping-iterations sub-suite name the full policy configuration
+	// (shuffling is a controlled dimension there) and carry a suffix
+	fullName bool
+	suffix   string
 }
+
+// kp: the policy part of a finding key
+func (e *env) kp(p polCfg) string {
+	if e.fullName {
+		return p.full()
+	}
+	return p.name()
+}
+
+// violation reports a finding: to the report in the main worker process, to the shard's
+// collector in a child process of the overlapping-iterations sub-suite (overlap.go)
+var violation = func(key, detail string, replay interface{}) { r.Violation(key, detail, replay) }
 
 func runState(st *state, c *seqCounters) {
 	c.states++
@@ -415,7 +431,7 @@ func runPolicy(st *state, p polCfg, listOrder []int, exp map[[2]int]expRep, c *s
 	replayBase := map[string]interface{}{"state": st.String(), "policy": p.full()}
 	if pan := catch(func() { pol, hosts, idx = setup(st, p, &cur) }); pan != nil {
 		c.panics++
-		r.Violation(p.name()+":panic-while-applying-cluster-events:"+panicClass(pan), fmt.Sprintf("%s on %s: %v", p.full(), st, pan), replayBase)
+		violation(p.name()+":panic-while-applying-cluster-events:"+panicClass(pan), fmt.Sprintf("%s on %s: %v", p.full(), st, pan), replayBase)
 		return
 	}
 	e := &env{st: st, hosts: hosts, idx: idx, c: c, exp: exp}
@@ -442,7 +458,7 @@ func runPolicy(st *state, p polCfg, listOrder []int, exp map[[2]int]expRep, c *s
 		ks := &allKs[ki]
 		if pan := catch(func() { pol.KeyspaceChanged(gocql.KeyspaceUpdateEvent{Keyspace: "ks", Change: "UPDATED"}) }); pan != nil {
 			c.panics++
-			r.Violation(p.name()+":panic-in-KeyspaceChanged:"+panicClass(pan), fmt.Sprintf("%s on %s, keyspace %s: %v", p.full(), st, ks.name, pan), replayBase)
+			violation(p.name()+":panic-in-KeyspaceChanged:"+panicClass(pan), fmt.Sprintf("%s on %s, keyspace %s: %v", p.full(), st, ks.name, pan), replayBase)
 			continue
 		}
 		for _, q := range []query{{name: "nil query", nilQ: true}, {name: "no routing key"}, {name: "keyA", key: keyA}, {name: "keyA again", key: keyA}, {name: "keyB", key: keyB, ki: 1}} {
@@ -537,11 +553,11 @@ func (e *env) pick(pol gocql.HostSelectionPolicy, p polCfg, q gocql.ExecutableQu
 	rp := withWhat(replay, what)
 	if pan != nil {
 		e.c.panics++
-		r.Violation(polCfg{kind: p.kind, tokenAware: p.tokenAware}.name()+":Pick-panics:"+panicClass(pan)+class, fmt.Sprintf("%s on %s; %s: panic after offering %v: %v", p.full(), e.st, what, S, pan), rp)
+		violation(polCfg{kind: p.kind, tokenAware: p.tokenAware}.name()+":Pick-panics:"+panicClass(pan)+class, fmt.Sprintf("%s on %s; %s: panic after offering %v: %v", p.full(), e.st, what, S, pan), rp)
 		return S, false
 	}
 	if bad != "" {
-		r.Violation(p.name()+":"+bad+class, fmt.Sprintf("%s on %s; %s: offered so far %v", p.full(), e.st, what, S), rp)
+		violation(p.name()+":"+bad+class, fmt.Sprintf("%s on %s; %s: offered so far %v", p.full(), e.st, what, S), rp)
 		return S, false
 	}
 	if len(e.c.outcomes) < 200000 {
@@ -583,16 +599,16 @@ func (e *env) checkGeneric(p polCfg, S []int, what string, replay map[string]int
 	seen := 0
 	for _, h := range S {
 		if !e.st.hosts[h].up() {
-			r.Violation(p.name()+":down-host-offered", fmt.Sprintf("%s on %s; %s: offered %v, h%d is down", p.full(), e.st, what, S, h), withWhat(replay, what))
+			violation(e.kp(p)+":down-host-offered"+e.suffix, fmt.Sprintf("%s on %s; %s: offered %v, h%d is down", p.full(), e.st, what, S, h), withWhat(replay, what))
 		}
 		if seen&(1<<uint(h)) != 0 {
-			r.Violation(p.name()+":host-offered-twice", fmt.Sprintf("%s on %s; %s: offered %v", p.full(), e.st, what, S), withWhat(replay, what))
+			violation(e.kp(p)+":host-offered-twice"+e.suffix, fmt.Sprintf("%s on %s; %s: offered %v", p.full(), e.st, what, S), withWhat(replay, what))
 		}
 		seen |= 1 << uint(h)
 	}
 	for i, h := range e.st.hosts {
 		if h.up() && seen&(1<<uint(i)) == 0 {
-			r.Violation(p.name()+":up-host-never-offered", fmt.Sprintf("%s on %s; %s: offered %v, h%d is up and known", p.full(), e.st, what, S, i), withWhat(replay, what))
+			violation(e.kp(p)+":up-host-never-offered"+e.suffix, fmt.Sprintf("%s on %s; %s: offered %v, h%d is up and known", p.full(), e.st, what, S, i), withWhat(replay, what))
 			break
 		}
 	}
@@ -602,7 +618,7 @@ func (e *env) checkGeneric(p polCfg, S []int, what string, replay map[string]int
 func (e *env) checkTiers(p polCfg, S []int, from int, part, what string, replay map[string]interface{}) bool {
 	for i := from + 1; i < len(S); i++ {
 		if p.tier(e.st.hosts[S[i]]) < p.tier(e.st.hosts[S[i-1]]) {
-			r.Violation(p.name()+":farther-tier-before-nearer:"+part, fmt.Sprintf("%s on %s; %s: offered %v, tiers %v", p.full(), e.st, what, S, e.tiers(p, S)), withWhat(replay, what))
+			violation(e.kp(p)+":farther-tier-before-nearer:"+part+e.suffix, fmt.Sprintf("%s on %s; %s: offered %v, tiers %v", p.full(), e.st, what, S, e.tiers(p, S)), withWhat(replay, what))
 			return false
 		}
 	}
@@ -653,7 +669,7 @@ func (e *env) checkRotation(p polCfg, listOrder []int, seqs [][]int, replay map[
 			okSome = all
 		}
 		if !okSome {
-			r.Violation(p.name()+":successive-picks-do-not-rotate-the-start", fmt.Sprintf("%s on %s: tier %d list %v, successive picks offered %v", p.full(), e.st, tier, L, seqs), replay)
+			violation(p.name()+":successive-picks-do-not-rotate-the-start", fmt.Sprintf("%s on %s: tier %d list %v, successive picks offered %v", p.full(), e.st, tier, L, seqs), replay)
 			return
 		}
 	}
@@ -779,10 +795,11 @@ func (e *env) checkTokenAware(pol gocql.HostSelectionPolicy, p polCfg, ki int, k
 	for _, h := range R {
 		middle = middle || p.tier(e.st.hosts[h]) == 1
 	}
-	key := p.name() + ":" + clause
+	key := e.kp(p) + ":" + clause
 	if clause == "farther-tier-replicas-not-before-the-other-hosts" && p.kind == 2 && !middle {
 		key += ":no-replica-in-the-middle-tier"
 	}
-	r.Violation(key, fmt.Sprintf("%s on %s; %s: Cassandra's replicas %v (tiers %v; gocql's own list %v), offered %v (tiers %v)",
+	key += e.suffix
+	violation(key, fmt.Sprintf("%s on %s; %s: Cassandra's replicas %v (tiers %v; gocql's own list %v), offered %v (tiers %v)",
 		p.full(), e.st, what, R, e.tiers(p, R), own, S, e.tiers(p, S)), withWhat(replay, what))
 }
